@@ -76,17 +76,21 @@ def membership_rules(repo, res):
     from .c16 import range_rule
 
     range_rule(repo, res, "Q8-MEMBERSHIP")
+    # a goal position given by a polygon (every lanelet goal is one): the closed vertex ring, boundary included — the
+    # case analysis of C06 on Polygon.contains_point, shared
+    from .c06ev import polygon_rules
+
+    polygon_rules(repo, res, "Q8-MEMBERSHIP")
 
 
 def run(repo, res, tier):
     res.rule("Q1-CLOBBER", "no store into a dependency of a derived state property followed by a read of that property on the same object", 1)
     res.rule("Q2-DISPATCH", "number/interval dispatch admits int and float", 2)
     res.rule("Q3-FIELDS", "validated goal attributes = checked goal attributes", 1)
-    res.rule("Q4-LOGIC", "checks are conjoined per goal state and disjoined over goal states", 5)
-    res.rule("Q5-PAIRING", "state attribute compared with the goal attribute of the same name; speed/heading conventions", 6)
-    res.rule("Q6-INDEX", "goal_reached returns the index of the state that reached the goal", 2)
-    res.rule("Q7-PER-GOAL", "each goal state is evaluated on data built afresh in its own loop iteration", 1)
-    res.rule("Q8-MEMBERSHIP", "the membership tests the goal check relies on: a shape group (lanelet goal) contains a point iff one of its members does; an angle interval contains an orientation modulo 2pi", 9)
+    res.rule("Q9-REACHED", "is_reached, evaluated: some goal state satisfied in all its constrained attributes; every test asked about the state's value of the same attribute (speed = norm, heading = atan2 for point-mass states); goal states judged independently", 60)
+    res.rule("Q5-PAIRING", "heading convention atan2(velocity_y, velocity) in the state classes", 1)
+    res.rule("Q6-INDEX", "goal_reached, evaluated: success exactly when a state reaches the goal, with the index of such a state", 7)
+    res.rule("Q8-MEMBERSHIP", "the membership tests the goal check relies on: a shape group (lanelet goal) contains a point iff one of its members does; an angle interval contains an orientation modulo 2pi; a polygon contains the points of its closed vertex ring", 16)
     membership_rules(repo, res)
     eff = Effects(repo)
     gmod = repo.mod(G)
@@ -186,179 +190,25 @@ def run(repo, res, tier):
         if not found:
             raise AnalysisError("%s.contains: dispatch test not found" % cn)
 
-    # ---------------------------------------------------------------- Q3..Q5 is_reached (region: is_reached + the
-    # same-class helpers it hands the state / goal state to; layout independent)
+    # ---------------------------------------------------------------- Q3..Q7: decided by evaluation (c08ev)
+    from . import c08ev
+
+    before = len(res.findings)
+    c08ev.reached_rules(repo, res, "Q9-REACHED")
+    c08ev.index_rules(repo, res, "Q6-INDEX")
     isr = goal.methods["is_reached"]
     qn = "GoalRegion.is_reached"
-    rd = ReachingDefs(isr)
-    loops = [n for n in ast.walk(isr) if isinstance(n, (ast.For, ast.GeneratorExp, ast.ListComp)) and any(canon(it, rd, None, []) == "self.state_list" for it in ([n.iter] if isinstance(n, ast.For) else [g.iter for g in n.generators]))]
-    if len(loops) != 1:
-        raise AnalysisError("is_reached: loop over the goal states not found")
-    loop = loops[0]
-    gvar = norm(loop.target) if isinstance(loop, ast.For) else norm(loop.generators[0].target)
-    svar = None
-    for n in ast.walk(isr):
-        if isinstance(n, ast.Assign) and isinstance(n.value, ast.Call) and norm(n.value.func).endswith("_harmonize_state_types") and isinstance(n.targets[0], ast.Tuple):
-            svar = n.targets[0].elts[0].id
-    if svar is None:
-        raise AnalysisError("is_reached: harmonized state variable not found")
-
-    class Chk:
-        pass
-
-    def attr_names(e, fn_):
-        """(base name, set of attribute names) an expression `x.a` / getattr(x, v) denotes"""
-        if isinstance(e, ast.Attribute) and isinstance(e.value, ast.Name):
-            return e.value.id, {e.attr}
-        if isinstance(e, ast.Call) and call_name(e) == "getattr" and len(e.args) >= 2 and isinstance(e.args[0], ast.Name):
-            v = e.args[1]
-            if isinstance(v, ast.Constant):
-                return e.args[0].id, {v.value}
-            if isinstance(v, ast.Name):
-                for lp in ast.walk(fn_):
-                    if isinstance(lp, ast.For) and norm(lp.target) == v.id and isinstance(lp.iter, (ast.Tuple, ast.List)) and all(isinstance(x, ast.Constant) for x in lp.iter.elts) and any(y is e for y in ast.walk(lp)):
-                        return e.args[0].id, {x.value for x in lp.iter.elts}
-        return None, set()
-
-    checks = []
-    region = [(isr, {svar: "state", gvar: "goal"})]
-    seen_fn = {id(isr)}
-    i = 0
-    while i < len(region):
-        fn_, roles = region[i]
-        i += 1
-        for c in ast.walk(fn_):
-            if not isinstance(c, ast.Call):
-                continue
-            f = c.func
-            if isinstance(f, ast.Attribute) and f.attr == "_check_value_in_interval" and len(c.args) == 2:
-                k = Chk()
-                k.call, k.fn, k.roles = c, fn_, roles
-                k.sb, k.sa = attr_names(c.args[0], fn_)
-                k.gb, k.ga = attr_names(c.args[1], fn_)
-                checks.append(k)
-            elif isinstance(f, ast.Attribute) and f.attr == "contains_point" and len(c.args) == 1:
-                k = Chk()
-                k.call, k.fn, k.roles = c, fn_, roles
-                k.sb, k.sa = attr_names(c.args[0], fn_)
-                k.gb, k.ga = attr_names(f.value, fn_)
-                checks.append(k)
-            elif isinstance(f, ast.Attribute) and isinstance(f.value, ast.Name) and f.value.id in ("self", "cls") and f.attr not in ("_harmonize_state_types", "_check_value_in_interval"):
-                h = goal.methods.get(f.attr)
-                if h is not None and id(h) not in seen_fn:
-                    hp = [x.arg for x in h.args.args]
-                    hp = hp[1:] if hp and hp[0] in ("self", "cls") else hp
-                    r2 = {}
-                    for pn_, a_ in list(zip(hp, c.args)) + [(kw.arg, kw.value) for kw in c.keywords if kw.arg]:
-                        if isinstance(a_, ast.Name) and a_.id in roles:
-                            r2[pn_] = roles[a_.id]
-                    if r2:
-                        seen_fn.add(id(h))
-                        region.append((h, r2))
-    if len(checks) < 3:
-        raise AnalysisError("is_reached: only %d attribute checks found in %s" % (len(checks), [f.name for f, _r in region]))
-    checked = set()
-    seq_flags = set()
-    for k in checks:
-        t = norm(k.call)[:100]
-        ok = k.roles.get(k.sb) == "state" and k.roles.get(k.gb) == "goal" and bool(k.sa) and k.sa == k.ga
-        res.check("Q5-PAIRING", "check %s pairs state.%s with goal.%s" % (t, sorted(k.sa), sorted(k.ga)), ok, gmod, k.call, "%s: %s" % (k.fn.name, t), "the state's attribute is not compared with the goal's attribute of the same name (on the harmonized state)", qualname="GoalRegion." + k.fn.name)
-        if ok:
-            checked |= set(k.sa)
-        # conjunctive use of the check
-        par = gmod.parent.get(k.call)
-        conj = False
-        node = k.call
-        while isinstance(par, ast.BoolOp) and isinstance(par.op, ast.And):
-            node, par = par, gmod.parent.get(par)
-        if isinstance(par, (ast.Assign, ast.Return)):
-            conj = True  # flag = flag and check  /  return a and check  /  return check
-            if isinstance(par, ast.Assign) and isinstance(node, ast.BoolOp):
-                tgt = norm(par.targets[0])
-                conj = any(norm(v) == tgt for v in node.values)
-            elif isinstance(par, ast.Assign):
-                # flag = check, executed only while the flag still holds (or as the first check after flag = True)
-                tgt = norm(par.targets[0])
-                g_ = dominating_guards(gmod, par, stop=k.fn)
-                guarded = any(pol and norm(t) == tgt for t, pol in g_)
-                earlier = [k2 for k2 in checks if k2.fn is k.fn and (k2.call.lineno, k2.call.col_offset) < (k.call.lineno, k.call.col_offset)]
-                inits_ = [n_ for n_ in walk_no_nested(k.fn) if isinstance(n_, ast.Assign) and norm(n_.targets[0]) == tgt and isinstance(n_.value, ast.Constant) and n_.value.value is True and n_.lineno < par.lineno]
-                conj = guarded or (not earlier and bool(inits_))
-                if conj:
-                    seq_flags.add((id(k.fn), tgt))
-        elif isinstance(par, ast.UnaryOp) and isinstance(par.op, ast.Not):
-            iff = gmod.parent.get(par)
-            if isinstance(iff, ast.If) and iff.test is par and len(iff.body) == 1:
-                st0 = iff.body[0]
-                conj = (isinstance(st0, ast.Return) and isinstance(st0.value, ast.Constant) and st0.value.value is False) or (isinstance(st0, ast.Assign) and isinstance(st0.value, ast.Constant) and st0.value.value is False)
-        res.check("Q4-LOGIC", "check of %s is conjoined into the per-goal result" % sorted(k.sa), conj, gmod, k.call, "%s: %s" % (k.fn.name, t), "a failing attribute check does not make the goal state unreached (the checks are not and-ed)", qualname="GoalRegion." + k.fn.name)
+    # Q3: the attributes a goal state may constrain are the ones the evaluated suites show to be tested (each of them,
+    # violated alone, makes the goal state unreached)
     valid = None
     vfn = goal.methods["_validate_goal_state"]
     for n in walk_no_nested(vfn):
-        if isinstance(n, ast.Assign) and isinstance(n.value, ast.List) and all(isinstance(e, ast.Constant) for e in n.value.elts) and "valid" in norm(n.targets[0]):
+        if isinstance(n, ast.Assign) and isinstance(n.value, (ast.List, ast.Tuple, ast.Set)) and all(isinstance(e, ast.Constant) for e in n.value.elts) and "valid" in norm(n.targets[0]):
             valid = [e.value for e in n.value.elts]
     if valid is None:
         raise AnalysisError("_validate_goal_state: list of valid fields not found")
-    res.check("Q3-FIELDS", "validated %s = checked %s" % (sorted(valid), sorted(checked)), sorted(valid) == sorted(checked), gmod, isr, "is_reached checks %s, goal states may constrain %s" % (sorted(checked), sorted(valid)), "a goal state may constrain an attribute that is_reached never checks (or vice versa): the constraint is silently ignored", qualname=qn)
-    # helper predicates: every returned value is True / False / a conjunction containing checks
-    for fn_, _roles in region[1:]:
-        for r in walk_no_nested(fn_):
-            if isinstance(r, ast.Return):
-                v = r.value
-                ok = (isinstance(v, ast.Constant) and v.value in (True, False) or any(any(k.call is y for y in ast.walk(v)) for k in checks) or (isinstance(v, ast.Name) and (id(fn_), v.id) in seq_flags)) if v is not None else False
-                res.check("Q4-LOGIC", "%s returns a truth value of its checks" % fn_.name, ok, gmod, r, "%s: %s" % (fn_.name, norm(r)[:80]), "the per-goal predicate returns something else than the conjunction of its checks", qualname="GoalRegion." + fn_.name)
-    # flag style inside is_reached: starts True, only conjoined
-    flags = {norm(gmod.parent.get(k.call if not isinstance(gmod.parent.get(k.call), ast.BoolOp) else gmod.parent.get(k.call)).targets[0]) for k in checks if k.fn is isr and isinstance(gmod.parent.get(k.call), ast.BoolOp) and isinstance(gmod.parent.get(gmod.parent.get(k.call)), ast.Assign)}
-    for flag in sorted(flags):
-        inits = [n for n in ast.walk(loop) if isinstance(n, ast.Assign) and norm(n.targets[0]) == flag and not isinstance(n.value, ast.BoolOp)]
-        res.check("Q4-LOGIC", "per-goal flag %s starts True and is only conjoined" % flag, len(inits) == 1 and isinstance(inits[0].value, ast.Constant) and inits[0].value.value is True, gmod, loop, "is_reached flag assignments %s" % [norm(o)[:60] for o in inits], "the conjunction does not start from True or is overridden later", qualname=qn)
-    # the region-level disjunction over goal states
-    per_goal = None
-    ok = False
-    if isinstance(loop, ast.For):
-        apps = [n for n in ast.walk(loop) if isinstance(n, ast.Call) and isinstance(n.func, ast.Attribute) and n.func.attr == "append" and len(n.args) == 1]
-        rets = [n for n in walk_no_nested(isr) if isinstance(n, ast.Return)]
-        lists = {norm(a.func.value) for a in apps}
-        for lst in lists:
-            mine = [a for a in apps if norm(a.func.value) == lst]
-            final = [r for r in rets if r.value is not None and norm(r.value) in ("np.any(%s)" % lst, "any(%s)" % lst, "bool(np.any(%s))" % lst)]
-            if final and len(rets) == 1 and len(mine) == 1 and mod_parent_is(gmod, mine[0], loop):
-                per_goal = mine[0].args[0]
-                ok = True
-        if not ok:
-            # early `return True` per reached goal state, False after the loop
-            trues = [r for r in ast.walk(loop) if isinstance(r, ast.Return) and isinstance(r.value, ast.Constant) and r.value.value is True]
-            tail = [r for r in isr.body if isinstance(r, ast.Return)]
-            if len(trues) == 1 and len(tail) == 1 and isinstance(tail[0].value, ast.Constant) and tail[0].value.value is False:
-                iff = gmod.parent.get(trues[0])
-                if isinstance(iff, ast.If):
-                    per_goal = iff.test
-                    ok = True
-    else:
-        par = gmod.parent.get(loop)
-        if isinstance(par, ast.Call) and norm(par.func) in ("any", "np.any") and isinstance(gmod.parent.get(par), ast.Return):
-            per_goal = loop.elt
-            ok = True
-    res.check("Q4-LOGIC", "result = any(per-goal results), one per goal state", ok, gmod, isr, "is_reached combination", "the goal region is not the union of its goal states", qualname=qn)
-    if per_goal is not None:
-        # the per-goal value is the flag or the helper predicate (or a conjunction of checks)
-        t = norm(per_goal)
-        okp = t in flags or (isinstance(per_goal, ast.Call) and isinstance(per_goal.func, ast.Attribute) and any(per_goal.func.attr == f.name for f, _r in region[1:])) or any(any(k.call is y for y in ast.walk(per_goal)) for k in checks)
-        res.check("Q4-LOGIC", "the per-goal result is the conjunction of the attribute checks", okp, gmod, per_goal, "is_reached per-goal value %s" % t[:80], "what is collected per goal state is not the result of its attribute checks", qualname=qn)
-    cvi = goal.methods["_check_value_in_interval"]
-    t = " ; ".join(norm(s) for s in cvi.body if not (isinstance(s, ast.Expr) and isinstance(s.value, ast.Constant)))
-    p1, p2 = cvi.args.args[1].arg, cvi.args.args[2].arg
-    res.check("Q5-PAIRING", "_check_value_in_interval = interval.contains(value)", "%s.contains(%s)" % (p2, p1) in t, gmod, cvi, "_check_value_in_interval", "the value is not tested for containment in the goal interval", qualname="GoalRegion._check_value_in_interval")
-    hz = goal.methods["_harmonize_state_types"]
-    hrd = ReachingDefs(hz)
-    norms = [n for n in walk_no_nested(hz) if isinstance(n, ast.Call) and norm(n.func) in ("np.linalg.norm", "math.hypot", "np.hypot")]
-    ok = len(norms) == 1
-    if ok:
-        from ..flowtools import mentions
-
-        t = canon(norms[0], hrd, None, [a.arg for a in hz.args.args])
-        ok = mentions(t, "velocity") and mentions(t, "velocity_y")
-    res.check("Q5-PAIRING", "speed = norm(velocity, velocity_y)", ok, gmod, hz, "_harmonize_state_types speed", "speed of a point-mass state is not hypot(vx, vy)", qualname="GoalRegion._harmonize_state_types")
+    checked = list(c08ev.ATTRS)
+    res.check("Q3-FIELDS", "validated %s = checked %s" % (sorted(valid), sorted(checked)), sorted(valid) == sorted(checked), gmod, vfn, "is_reached checks %s, goal states may constrain %s" % (sorted(checked), sorted(valid)), "a goal state may constrain an attribute that is_reached never checks (or vice versa): the constraint is silently ignored", qualname="GoalRegion._validate_goal_state")
     # heading convention atan2(vy, vx) at every site of the package
     from ..flowtools import mentions as _m
 
@@ -371,88 +221,12 @@ def run(repo, res, tier):
                 if isinstance(n, ast.Call) and norm(n.func) in ("math.atan2", "np.arctan2", "numpy.arctan2") and len(n.args) == 2:
                     frd = frd or ReachingDefs(fdef)
                     a0, a1 = [canon(x, frd, frd.stmt_of(n), []) for x in n.args]
-                    if _m(a0, "velocity") or _m(a1, "velocity") or _m(a0, "velocity_y") or _m(a1, "velocity_y"):
+                    if rel != G and (_m(a0, "velocity") or _m(a1, "velocity") or _m(a0, "velocity_y") or _m(a1, "velocity_y")):
                         n_at += 1
                         ok = _m(a0, "velocity_y") and not _m(a1, "velocity_y") and _m(a1, "velocity")
                         res.check("Q5-PAIRING", "%s: %s" % (rel.split("/")[-1], norm(n)), ok, m, n, "%s: %s" % (m.qualname(n), norm(n)), "heading of a point-mass state must be atan2(vy, vx)", qualname=m.qualname(n))
-    if n_at < 2:
-        raise AnalysisError("fewer than 2 atan2(velocity_y, velocity) sites found")
-
-    # ---------------------------------------------------------------- Q6
-    pmod = repo.mod(PP)
-    gr = repo.method(PP, "PlanningProblem", "goal_reached")
-    grd = ReachingDefs(gr)
-    tpar = gr.args.args[1].arg
-    succ = [r for r in walk_no_nested(gr) if isinstance(r, ast.Return) and isinstance(r.value, ast.Tuple) and len(r.value.elts) == 2 and isinstance(r.value.elts[0], ast.Constant) and r.value.elts[0].value is True]
-    ok = len(succ) >= 1
-    for r in succ:
-        idx = r.value.elts[1]
-        tests = [t for t, pol in dominating_guards(pmod, r, stop=gr) if pol and isinstance(t, ast.Call) and isinstance(t.func, ast.Attribute) and t.func.attr == "is_reached" and len(t.args) == 1]
-        good = False
-        for t in tests:
-            recv = canon(t.func.value, grd, grd.stmt_of(t), [tpar])
-            st_ = t.args[0]
-            if recv not in ("self.goal", "self.goal_region"):
-                continue
-            # (a) the tested state is state_list[idx]
-            if canon(st_, grd, grd.stmt_of(t), [tpar]) == "%s.state_list[%s]" % (tpar, norm(idx)):
-                good = True
-            # (b) idx and the tested state are the two components of enumerate(state_list)
-            lp = pmod.parent.get(r)
-            while lp is not None and not isinstance(lp, ast.For):
-                lp = pmod.parent.get(lp)
-            if lp is not None and isinstance(lp.target, ast.Tuple) and len(lp.target.elts) == 2 and [norm(x) for x in lp.target.elts] == [norm(idx), norm(st_)]:
-                it = lp.iter
-                while isinstance(it, ast.Call) and norm(it.func) in ("reversed", "list", "tuple") and len(it.args) == 1:
-                    it = it.args[0]
-                if isinstance(it, ast.Call) and norm(it.func) == "enumerate" and len(it.args) == 1 and canon(it.args[0], grd, lp, [tpar]) == "%s.state_list" % tpar:
-                    good = True
-        ok = ok and good
-    res.check("Q6-INDEX", "goal_reached returns (True, index of the state for which is_reached held)", ok, pmod, gr, "goal_reached success return", "the reported index does not belong to a state that reaches the goal", qualname="PlanningProblem.goal_reached")
-    tail = [n for n in gr.body if isinstance(n, ast.Return)]
-    res.check("Q6-INDEX", "goal_reached returns (False, -1) when no state reaches the goal", len(tail) == 1 and norm(tail[0].value) == "(False, -1)", pmod, gr, "goal_reached failure return", "failure is not reported as (False, -1)", qualname="PlanningProblem.goal_reached")
-    # ---------------------------------------------------------------- Q7: no state carried from one goal state to the next
-    gmod = repo.mod(GO) if "GO" in globals() else repo.mod("commonroad/planning/goal.py")
-    gcls = gmod.classes.get("GoalRegion")
-    ir = gcls.methods.get("is_reached") if gcls is not None else None
-    if ir is None:
-        raise AnalysisError("GoalRegion.is_reached missing")
-    from ..dataflow import ReachingDefs as _RD
-    from ..effects import FnKey as _FK
-
-    fk = _FK(gcls, ir, gmod)
-    rd = _RD(ir)
-    gloops = [n for n in ir.body if isinstance(n, ast.For) and "state_list" in norm(n.iter)]
-    if len(gloops) != 1:
-        raise AnalysisError("is_reached: loop over the goal states not found")
-    lp = gloops[0]
-    inside = {id(x) for x in ast.walk(lp)}
-    n7 = 0
-    for c in ast.walk(lp):
-        if not isinstance(c, ast.Call):
-            continue
-        mutated = []  # (argument Name node, description)
-        cands, mode, recv = eff.resolve_call(fk, c)
-        if mode in ("exact", "typed", "exact-unbound") and cands:
-            for k in cands:
-                b = eff.bind(k, recv, list(c.args), {kw.arg: kw.value for kw in c.keywords if kw.arg})
-                for pname, arg in b.items():
-                    if isinstance(arg, ast.Name) and eff.mutates_param(k, pname):
-                        mutated.append((arg, "%s mutates its parameter %s" % (k.name, pname)))
-        if isinstance(c.func, ast.Attribute) and isinstance(c.func.value, ast.Name) and c.func.attr in ("add", "remove", "discard", "append", "pop", "clear", "update", "extend"):
-            v = c.func.value
-            # a pure accumulator (only ever the receiver of such calls inside the loop) collects results, it is no input
-            other_loads = [x for x in ast.walk(lp) if isinstance(x, ast.Name) and x.id == v.id and isinstance(x.ctx, ast.Load) and not (isinstance(gmod.parent.get(x), ast.Attribute) and gmod.parent.get(x).attr in ("add", "append", "extend", "update"))]
-            if other_loads:
-                mutated.append((v, "%s(..)" % norm(c.func)))
-        for arg, why in mutated:
-            if arg.id in ("self",) or arg.id in [a.arg for a in ir.args.args]:
-                continue
-            n7 += 1
-            outside = [d for d in rd.defs(arg.id, c) if d.stmt is not None and id(d.stmt) not in inside]
-            res.check("Q7-PER-GOAL", "is_reached: %s passed to a mutating operation is built inside the loop (%s)" % (arg.id, why), not outside, gmod, c, "is_reached: %s defined before the goal-state loop and mutated inside it (%s)" % (arg.id, why), "what one goal state's evaluation changes is seen by the next goal state: the disjunction over goal states depends on their order", qualname="GoalRegion.is_reached")
-    if n7 < 1:
-        raise AnalysisError("is_reached: no mutated input found in the goal-state loop (1 confirmed: state_fields, changed by _harmonize_state_types)")
+    if n_at < 1:
+        raise AnalysisError("no atan2(velocity_y, velocity) site found in the state classes")
     return {"derived_properties": {"%s.%s" % k: sorted(v) for k, v in dp.items()}}
 
 
